@@ -2,3 +2,4 @@
 import WS.Base.Bytes
 import WS.Gen.Tables
 import WS.Props.C06
+import WS.Props.C01
